@@ -893,8 +893,8 @@ func (p *H265Payloader) Payload(mtu uint16, payload []byte) [][]byte { //nolint:
 
 				payloads = append(payloads, buf)
 			} else {
-				// write the nalu directly to the payload
-				payloads = append(payloads, nalu)
+				// write a copy of the nalu to the payload, the caller keeps ownership of its buffer
+				payloads = append(payloads, append([]byte{}, nalu...))
 			}
 		} else {
 			// construct an aggregation packet
